@@ -346,7 +346,13 @@ func TestProp_C17_Structs(t *testing.T) {
 			}
 			q := ""
 			if kind == "smp1q" {
-				q = rapid.StringOfN(rapid.RuneFrom([]rune("abc ?ü\t")), 0, 40, -1).Draw(rt, "q")
+				if rapid.Bool().Draw(rt, "qraw") {
+					// a question is a string of bytes that ends at the first NUL: any encoding (or none) may be in it
+					qb := rapid.SliceOfN(rapid.ByteRange(1, 255), 0, 40).Draw(rt, "qbytes")
+					q = string(qb)
+				} else {
+					q = rapid.StringOfN(rapid.RuneFrom([]rune("abc ?ü\t")), 0, 40, -1).Draw(rt, "q")
+				}
 				boundary = boundary || q == ""
 			}
 			sample = map[string]interface{}{"kind": kind, "vals": intsHex(vals...), "q": q}
